@@ -59,107 +59,116 @@ func checkC18(c *an.Ctx) {
 		return
 	}
 	_, defs := stageLoop.RangeKeyValue()
-	isDefField := func(v ssa.Value, field string) bool {
-		ap := an.AccessPath(v)
-		if ap.LastField() != field || len(ap.Fields) != 1 {
-			return false
-		}
+	// the stage-builder trace: one iteration of the stage loop with the helpers of internal/config inlined
+	type sbRow struct {
+		name             string
+		taskSet          int // 1 yes, 0 no
+		taskNil, pipeNil bool
+		nameTaken        bool
+	}
+	isDefRoot := func(v ssa.Value, st *an.State) bool {
 		for _, d := range defs {
-			if an.SameValue(ap.Base, d) {
+			if st.SameRoot(v, d) {
 				return true
 			}
 		}
 		return false
 	}
-	// lookups
-	type lk struct {
-		v     ssa.Value // the looked-up pointer
-		table string    // Config.Tasks / Config.Pipelines
-		key   string    // Task / Pipeline
+	isDefField := func(v ssa.Value, field string, st *an.State) bool {
+		ap := an.AccessPath(st.Root(v))
+		if ap.LastField() == field && len(ap.Fields) == 1 && isDefRoot(ap.Base, st) {
+			return true
+		}
+		ap = an.AccessPath(v)
+		return ap.LastField() == field && len(ap.Fields) == 1 && isDefRoot(ap.Base, st)
 	}
-	var lookups []lk
-	for b := range stageLoop.Blocks {
-		for _, in := range b.Instrs {
-			l, ok := in.(*ssa.Lookup)
-			if !ok {
-				continue
-			}
+	nLookups := map[string]bool{}
+	trace := func(row sbRow) []an.Outcome {
+		ex := &an.Explorer{P: p, NoReturn: noReturn, MaxDepth: 3,
+			Inline: func(f *ssa.Function) bool { return an.Outer(f).Pkg == bp.Pkg && f != bp }}
+		stageLoop.Bound(ex)
+		lookupVal := func(l *ssa.Lookup, st *an.State) (isNil bool, ok bool) {
 			tbl := an.FieldProv(l.X)
 			switch {
-			case tbl == "Config.Tasks" && isDefField(l.Index, "Task"):
-				lookups = append(lookups, lk{l, tbl, "Task"})
-			case tbl == "Config.Pipelines" && isDefField(l.Index, "Pipeline"):
-				lookups = append(lookups, lk{l, tbl, "Pipeline"})
+			case tbl == "Config.Tasks" && isDefField(l.Index, "Task", st):
+				nLookups["Tasks"] = true
+				return row.taskNil, true
+			case tbl == "Config.Pipelines" && isDefField(l.Index, "Pipeline", st):
+				nLookups["Pipelines"] = true
+				return row.pipeNil, true
 			}
+			return false, false
 		}
-	}
-	// C18.1 rows
-	for _, row := range []struct {
-		name               string
-		taskSet            bool
-		taskNil, pipeNil   bool
-		wantErr            bool
-	}{
-		{"task named, present", true, false, false, false},
-		{"task named, absent", true, true, false, true},
-		{"no task, pipeline present", false, false, false, false},
-		{"no task, pipeline absent", false, false, true, true},
-	} {
-		row := row
-		ex := &an.Explorer{P: p, NoReturn: noReturn}
-		stageLoop.Bound(ex)
-		ex.Atom = func(v ssa.Value) (an.AVal, bool) {
-			if bo, ok := v.(*ssa.BinOp); ok && (bo.Op == token.NEQ || bo.Op == token.EQL) {
-				if s, isS := an.ConstString(bo.Y); isS && s == "" && isDefField(bo.X, "Task") {
-					return an.ABool((bo.Op == token.NEQ) == row.taskSet), true
+		ex.AtomSt = func(v ssa.Value, st *an.State) (an.AVal, bool) {
+			switch x := v.(type) {
+			case *ssa.BinOp:
+				if x.Op == token.NEQ || x.Op == token.EQL {
+					if s, isS := an.ConstString(x.Y); isS && s == "" && isDefField(x.X, "Task", st) {
+						return an.ABool((x.Op == token.NEQ) == (row.taskSet == 1)), true
+					}
 				}
-			}
-			for _, l := range lookups {
-				if v == l.v || (func() bool {
-					if e, ok := v.(*ssa.Extract); ok && e.Tuple == l.v && e.Index == 0 {
-						return true
-					}
-					return false
-				})() {
-					isNil := row.taskNil
-					if l.key == "Pipeline" {
-						isNil = row.pipeNil
-					}
+			case *ssa.Lookup:
+				if isNil, ok := lookupVal(x, st); ok && !x.CommaOk {
 					if isNil {
 						return an.AVal{K: an.ANil}, true
 					}
 					return an.AVal{K: an.ANonNil}, true
 				}
-				if e, ok := v.(*ssa.Extract); ok && e.Tuple == l.v && e.Index == 1 {
-					isNil := row.taskNil
-					if l.key == "Pipeline" {
-						isNil = row.pipeNil
+			case *ssa.Extract:
+				if l, ok := x.Tuple.(*ssa.Lookup); ok {
+					if isNil, ok := lookupVal(l, st); ok {
+						if x.Index == 1 {
+							return an.ABool(!isNil), true
+						}
+						if isNil {
+							return an.AVal{K: an.ANil}, true
+						}
+						return an.AVal{K: an.ANonNil}, true
 					}
-					return an.ABool(!isNil), true
+				}
+				if call, ok := x.Tuple.(*ssa.Call); ok && an.IsErrorType(x.Type()) {
+					if _, ok := an.IsCallTo(call, fnGraphNode); ok {
+						if row.nameTaken {
+							return an.AVal{K: an.ANil}, true
+						}
+						return an.AVal{K: an.ANonNil}, true
+					}
 				}
 			}
 			return an.AVal{}, false
 		}
 		ex.Effect = func(in ssa.Instruction, st *an.State) string {
-			if in == ssa.Instruction(addCall) {
-				return "AddStage"
+			if call, ok := in.(*ssa.Call); ok {
+				for _, callee := range p.Callees(&call.Call) {
+					if callee == add {
+						return "AddStage"
+					}
+				}
+				if _, ok := an.IsCallTo(call, fnGraphNode); ok {
+					return "Node"
+				}
 			}
 			return ""
 		}
-		outs := ex.Run(bp, stageLoop.BodyEntry(), stageLoop.Header, nil)
+		return ex.Run(bp, stageLoop.BodyEntry(), stageLoop.Header, nil)
+	}
+	for _, row := range []struct {
+		sbRow
+		wantErr bool
+	}{
+		{sbRow{"task named, present", 1, false, false, false}, false},
+		{sbRow{"task named, absent", 1, true, false, false}, true},
+		{sbRow{"no task, pipeline present", 0, false, false, false}, false},
+		{sbRow{"no task, pipeline absent", 0, false, true, false}, true},
+	} {
+		outs := trace(row.sbRow)
 		bad := ""
 		for _, o := range outs {
-			added := false
-			for _, e := range o.Effects {
-				if e == "AddStage" {
-					added = true
-				}
-			}
+			added := has(o.Effects, "AddStage")
 			if row.wantErr {
 				if added {
 					bad = "the stage is added although its reference is dangling"
-				}
-				if !(o.End == "return" && o.Ret[len(o.Ret)-1].K == an.ANonNil) && !added {
+				} else if !(o.End == "return" && o.Ret[len(o.Ret)-1].K == an.ANonNil) {
 					bad = "a dangling reference does not end the build with an error (" + o.End + ")"
 				}
 			}
@@ -174,72 +183,59 @@ func checkC18(c *an.Ctx) {
 			c.OK("C18.1", key, bp.Pos(), "%d paths", len(outs))
 		}
 	}
-	if len(lookups) < 2 {
-		c.Bad("C18.1", an.Short(bp)+":lookups", bp.Pos(), "the stage builder does not look up both the stage's task in Config.Tasks and its pipeline in Config.Pipelines (%d lookups found)", len(lookups))
+	if !nLookups["Tasks"] || !nLookups["Pipelines"] {
+		c.Bad("C18.1", an.Short(bp)+":lookups", bp.Pos(), "the stage builder does not look up both the stage's task in Config.Tasks and its pipeline in Config.Pipelines (found: %v)", nLookups)
 	}
 
 	// C18.2
-	var nodeCall *ssa.Call
+	for _, taken := range []bool{true, false} {
+		outs := trace(sbRow{"dup", 1, false, false, taken})
+		bad := ""
+		sawNode := false
+		for _, o := range outs {
+			added := has(o.Effects, "AddStage")
+			ni, ai := -1, -1
+			for i, e := range o.Effects {
+				if e == "Node" && ni < 0 {
+					ni = i
+				}
+				if e == "AddStage" {
+					ai = i
+				}
+			}
+			if ni >= 0 {
+				sawNode = true
+			}
+			if added && (ni < 0 || ni > ai) {
+				bad = "a stage is added without a preceding lookup of its name in the graph: a second stage with the same name silently replaces the first"
+			}
+			if taken && ni >= 0 && (added || !(o.End == "return" && o.Ret[len(o.Ret)-1].K == an.ANonNil)) {
+				bad = "a stage whose name is already taken is not rejected"
+			}
+			if !taken && !added && o.End == "stop" {
+				bad = "a stage with a fresh name is not added"
+			}
+		}
+		if !sawNode {
+			bad = "no lookup of the stage's name in the graph precedes AddStage: a second stage with the same name silently replaces the first"
+		}
+		key := fmt.Sprintf("%s:row name %s", an.Short(bp), map[bool]string{true: "taken", false: "free"}[taken])
+		if bad != "" {
+			c.Bad("C18.2", key, addCall.Pos(), "%s", bad)
+		} else {
+			c.OK("C18.2", key, addCall.Pos(), "%d paths", len(outs))
+		}
+	}
+	// the lookup uses the final name of the stage that is added, in the graph it is added to
 	for b := range stageLoop.Blocks {
 		for _, in := range b.Instrs {
 			if call, ok := in.(*ssa.Call); ok {
-				if _, ok := an.IsCallTo(call, fnGraphNode); ok && an.Dominates(call, addCall) {
-					nodeCall = call
+				if cc, ok := an.IsCallTo(call, fnGraphNode); ok && an.Dominates(call, addCall) {
+					sameGraph := an.SameValue(cc.Args[0], addCall.Call.Args[0])
+					nameAP := an.AccessPath(cc.Args[1])
+					finalName := nameAP.LastField() == "Name" && an.SameValue(nameAP.Base, addCall.Call.Args[1])
+					c.Check(sameGraph && finalName, "C18.2", an.Short(bp)+":duplicate-check(args)", call.Pos(), "the lookup uses the stage's final name in the graph being built", "the duplicate check does not look up the stage's own Name in the graph the stage is added to")
 				}
-			}
-		}
-	}
-	if nodeCall == nil {
-		c.Bad("C18.2", an.Short(bp)+":duplicate-check", addCall.Pos(), "no lookup of the stage's name in the graph precedes AddStage: a second stage with the same name silently replaces the first")
-	} else {
-		// same graph, final name (the name the stage is added under)
-		sameGraph := an.SameValue(nodeCall.Call.Args[0], addCall.Call.Args[0])
-		nameAP := an.AccessPath(nodeCall.Call.Args[1])
-		stageArg := addCall.Call.Args[1]
-		finalName := nameAP.LastField() == "Name" && an.SameValue(nameAP.Base, stageArg)
-		c.Check(sameGraph && finalName, "C18.2", an.Short(bp)+":duplicate-check(args)", nodeCall.Pos(), "the lookup uses the stage's final name in the graph being built", "the duplicate check does not look up the stage's own Name in the graph the stage is added to")
-		for _, found := range []bool{true, false} {
-			found := found
-			ex := &an.Explorer{P: p, NoReturn: noReturn}
-			stageLoop.Bound(ex)
-			ex.Atom = func(v ssa.Value) (an.AVal, bool) {
-				for _, e := range errOf(nodeCall) {
-					if v == e {
-						if found {
-							return an.AVal{K: an.ANil}, true
-						}
-						return an.AVal{K: an.ANonNil}, true
-					}
-				}
-				return an.AVal{}, false
-			}
-			ex.Effect = func(in ssa.Instruction, st *an.State) string {
-				if in == ssa.Instruction(addCall) {
-					return "AddStage"
-				}
-				return ""
-			}
-			outs := ex.RunFrom(bp, nodeCall, nil)
-			bad := ""
-			for _, o := range outs {
-				added := false
-				for _, e := range o.Effects {
-					if e == "AddStage" {
-						added = true
-					}
-				}
-				if found && (added || !(o.End == "return" && o.Ret[len(o.Ret)-1].K == an.ANonNil)) {
-					bad = "a stage whose name is already taken is not rejected"
-				}
-				if !found && !added {
-					bad = "a stage with a fresh name is not added"
-				}
-			}
-			key := fmt.Sprintf("%s:row name %s", an.Short(bp), map[bool]string{true: "taken", false: "free"}[found])
-			if bad != "" {
-				c.Bad("C18.2", key, nodeCall.Pos(), "%s", bad)
-			} else {
-				c.OK("C18.2", key, nodeCall.Pos(), "%d paths", len(outs))
 			}
 		}
 	}
@@ -417,36 +413,87 @@ func dependsOnValidator(c *an.Ctx, bp *ssa.Function, stageLoop *an.Loop, rule st
 		} else {
 			c.OK(rule, key+":row absent", look.Pos(), "an unknown dependency is a non-nil error (%d paths)", len(outs))
 		}
-		// the stages ranged over are all nodes of the same graph, after the last AddStage
+		// the stages ranged over are all nodes of the same graph
+		var outer *an.Loop
+		for _, l := range an.Loops(cd.fn) {
+			if l.Header != cd.loop.Header && l.Blocks[cd.loop.Header] && (cd.fn != bp || l.Header != stageLoop.Header) {
+				outer = l
+			}
+		}
+		allNodes := false
+		if outer != nil {
+			for _, src := range an.Sources(outer.RangeOperand()) {
+				if call, ok := src.(*ssa.Call); ok {
+					if cc, ok := an.IsCallTo(call, fnGraphNodes); ok && an.SameValue(cc.Args[0], lookGraph) {
+						allNodes = true
+					}
+				}
+			}
+		}
+		c.Check(allNodes, rule, key+":all-stages", cd.loop.Header.Instrs[0].Pos(), "every stage of the graph is validated against the same graph", "the validator does not range over all nodes of the graph it looks dependencies up in")
+		// every successful return of the function holding the validator passes it
+		for _, ret := range an.Returns(cd.fn) {
+			if len(ret.Results) > 0 && an.IsNilConst(an.RetVal(ret, len(ret.Results)-1)) {
+				c.Check(cd.loop.NormalExit() != nil && cd.loop.NormalExit().Dominates(ret.Block()) || (outer != nil && outer.NormalExit() != nil && outer.NormalExit().Dominates(ret.Block())), rule, key+":on-success-path", ret.Pos(), "success is returned only after validation", an.Short(cd.fn)+" can succeed without running the validator")
+			}
+		}
 		if cd.fn == bp {
 			after := stageLoop.NormalExit() != nil && stageLoop.NormalExit().Dominates(cd.loop.Header) && !stageLoop.Blocks[cd.loop.Header]
 			c.Check(after, rule, key+":after-last-stage", cd.loop.Header.Instrs[0].Pos(), "the validator runs after every stage of the pipeline was added (a dependency may be declared later)", "the validator runs before all stages are known: a dependency declared after its dependant is rejected, or a dangling one is missed")
-			// outer loop over all nodes
-			var outer *an.Loop
-			for _, l := range an.Loops(bp) {
-				if l.Header != cd.loop.Header && l.Blocks[cd.loop.Header] && l.Header != stageLoop.Header {
-					outer = l
-				}
-			}
-			allNodes := false
-			if outer != nil {
-				for _, src := range an.Sources(outer.RangeOperand()) {
-					if call, ok := src.(*ssa.Call); ok {
-						if cc, ok := an.IsCallTo(call, fnGraphNodes); ok && an.SameValue(cc.Args[0], lookGraph) {
-							allNodes = true
+		} else {
+			// the validator lives in a helper: its call site in buildPipeline carries the placement obligations
+			var sites []*ssa.Call
+			for _, b := range bp.Blocks {
+				for _, in := range b.Instrs {
+					if call, ok := in.(*ssa.Call); ok {
+						if call.Call.StaticCallee() == cd.fn {
+							sites = append(sites, call)
 						}
 					}
 				}
 			}
-			c.Check(allNodes, rule, key+":all-stages", cd.loop.Header.Instrs[0].Pos(), "every stage of the graph is validated against the same graph", "the validator does not range over all nodes of the graph it looks dependencies up in")
-			// every successful return passes the validator
-			for _, ret := range an.Returns(bp) {
-				if an.IsNilConst(an.RetVal(ret, 1)) {
-					c.Check(cd.loop.NormalExit() != nil && cd.loop.NormalExit().Dominates(ret.Block()) || (outer != nil && outer.NormalExit() != nil && outer.NormalExit().Dominates(ret.Block())), rule, key+":on-success-path", ret.Pos(), "a pipeline is returned only after validation", "buildPipeline can succeed without running the validator")
+			if len(sites) == 0 {
+				c.Und(rule, key+":placement", cd.fn.Pos(), "the validator lives in %s, which buildPipeline does not call directly: its placement relative to the last AddStage is not analysed", an.Short(cd.fn))
+				continue
+			}
+			var addGraph ssa.Value
+			for b := range stageLoop.Blocks {
+				for _, in := range b.Instrs {
+					if call, ok := in.(*ssa.Call); ok {
+						for _, callee := range p.Callees(&call.Call) {
+							if callee.Name() == "AddStage" && an.TypeIs(callee.Signature.Recv().Type(), "pkg/scheduler", "ExecutionGraph") {
+								addGraph = call.Call.Args[0]
+							}
+						}
+					}
 				}
 			}
-		} else {
-			c.Und(rule, key+":placement", cd.fn.Pos(), "the validator lives in %s: its placement relative to the last AddStage is not analysed", an.Short(cd.fn))
+			good := false
+			for _, site := range sites {
+				after := stageLoop.NormalExit() != nil && stageLoop.NormalExit().Dominates(site.Block()) && !stageLoop.Blocks[site.Block()]
+				if !after {
+					continue
+				}
+				// the graph handed to the helper is the one the stages were added to
+				sameGraph := false
+				if pi := paramIndexOf(cd.fn, lookGraph); pi >= 0 && addGraph != nil {
+					sameGraph = an.SameValue(site.Call.Args[pi], addGraph)
+				}
+				if !sameGraph {
+					continue
+				}
+				fate := p.ErrFate(site, noReturn)
+				onAll := true
+				for _, ret := range an.Returns(bp) {
+					if an.IsNilConst(an.RetVal(ret, len(ret.Results)-1)) && !site.Block().Dominates(ret.Block()) {
+						onAll = false
+					}
+				}
+				if (fate.Kind == "propagated" || fate.Kind == "converted") && onAll {
+					good = true
+				}
+			}
+			c.Check(good, rule, key+":after-last-stage", sites[0].Pos(), "the validator is called after every stage was added, on the graph they were added to, on every successful exit, and its error fails the build", "the validator helper is not called after the stage loop on the same graph with its error propagated on every successful exit of buildPipeline")
 		}
 	}
 	// the error of buildPipeline fails the load (chain to Load)
@@ -550,4 +597,16 @@ func inclusionCycles(c *an.Ctx, bfd *ssa.Function, rule string) {
 		}
 	}
 	c.Check(okFollow, rule, an.Short(walker)+":follows-links", walker.Pos(), "the walk recurses into stage.Pipeline", "the walker does not recurse into the pipelines its stages include")
+}
+
+// paramIndexOf returns the index of the parameter v resolves to, or -1
+func paramIndexOf(fn *ssa.Function, v ssa.Value) int {
+	for _, r := range an.ResolveAll(v) {
+		for i, prm := range fn.Params {
+			if r == prm {
+				return i
+			}
+		}
+	}
+	return -1
 }
